@@ -20,6 +20,7 @@ from typing import Dict, List
 from .. import bmd
 from ..common import Ctx
 from ..renderlib import Geometry, abstract_file, vadd, vcross, vdot, vmul, vnorm, vsub, vunit
+from .. import examples
 from . import render
 
 FOCUS = {"C05": ["vertices"], "C06": ["file", "addressing"], "C07": ["edges"], "C10": ["addressing", "edges"]}["C07"]
@@ -34,6 +35,7 @@ def run(ctx: Ctx) -> None:
     for focus in FOCUS:
         render.run_focus(ctx, "C07", focus, n // len(FOCUS))
     swept(ctx, 60 if ctx.tier == "quick" else 1500)
+    examples.judge_examples(ctx, "C07")     # File.tla EdgesOnBlocks / EdgesOnce on the example scripts' dictionaries
 
 
 # ---------------------------------------------------------------- own affine maps (independent of the library)
